@@ -8,10 +8,10 @@ COMMON_ASSUMPTIONS = [
 
 KANI_CONFIGS = {
     # std build of the crate (default features) with hooks
-    'std': dict(name='std', cargo_flags=['--features', 'verif-hooks'], solver='minisat'),
+    'std': dict(name='std', cargo_flags=['--features', 'verif-hooks'], solver='minisat', kani_flags=['-Z', 'stubbing']),
     # no_std build: hashbrown + libm
     'nostd': dict(name='nostd', cargo_flags=['--no-default-features', '--features', 'hashbrown,libm,verif-hooks'], solver='minisat',
-                  thorough_only=False),
+                  thorough_only=False, kani_flags=['-Z', 'stubbing']),
 }
 
 SHIM_ASSUMPTIONS = [
@@ -46,7 +46,7 @@ UNITS = {
                  functions=[dict(function='RawLRU::' + f, file='src/lru/raw.rs', line=0, props=['C15'])
                             for f in ['cb', 'capturing_put', 'remove', 'remove_lru', 'purge', 'resize', 'with_on_evict_cb_and_hasher']],
                  assumptions=SHIM_ASSUMPTIONS + ['with_on_evict_cb (RandomState hasher) differs from with_on_evict_cb_and_hasher only in the hasher argument; only the latter is executed under Kani']),
-    'K-LIFE': dict(engine='kani', files=['harness_raw_life.rs'], support_files=['harness_raw.rs', 'gen.rs'],
+    'K-LIFE': dict(engine='kani', jobs=10, files=['harness_raw_life.rs'], support_files=['harness_raw.rs', 'gen.rs'],
                    module={'harness_raw_life.rs': 'lru::raw::verif_hooks::harness_life'},
                    n=dict(quick=2, thorough=3), bound='list length <= {N}, capacity <= {N}; 16 tracked object ids',
                    timeout=dict(quick=900, thorough=3600),
@@ -54,7 +54,7 @@ UNITS = {
                               for f in ['clone', 'drop', 'capturing_put', 'replace_or_create_node', 'remove', 'remove_lru', 'remove_lru_in', 'purge', 'resize',
                                         'get', 'peek', 'peek_mut', 'contains (borrowed Q)', 'KeyWrapper::from_ref', 'KeyRef::borrow']],
                    assumptions=SHIM_ASSUMPTIONS),
-    'K-SEG': dict(engine='kani', files=['harness_segmented.rs'], support_files=['harness_raw.rs', 'gen.rs'],
+    'K-SEG': dict(engine='kani', jobs=10, files=['harness_segmented.rs'], support_files=['harness_raw.rs', 'gen.rs'],
                   module={'harness_segmented.rs': 'lru::segmented::verif_hooks::harness'},
                   n=dict(quick=2, thorough=3), bound='each segment: length <= {N}, capacity in 1..={N}',
                   timeout=dict(quick=1200, thorough=5400),
@@ -63,7 +63,7 @@ UNITS = {
                                        'put_protected', 'peek_{lru,mru}(_mut)_from_{probationary,protected}', 'remove_lru_from_{probationary,protected}',
                                        '{protected,probationary}_{len,cap}', 'clone', 'drop']],
                   assumptions=SHIM_ASSUMPTIONS),
-    'K-2Q': dict(engine='kani', files=['harness_two_queue.rs'], support_files=['gen.rs'],
+    'K-2Q': dict(engine='kani', jobs=6, files=['harness_two_queue.rs'], support_files=['gen.rs'],
                  module={'harness_two_queue.rs': 'lru::two_queue::verif_hooks::harness'},
                  n=dict(quick=2, thorough=3), bound='size in 1..={N}, quota in 0..=size, ghost bound in 1..=size, each queue <= {N} entries',
                  timeout=dict(quick=1800, thorough=7200),
@@ -71,7 +71,7 @@ UNITS = {
                             for f in ['put', 'get', 'get_mut', 'peek', 'peek_mut', 'contains', 'remove', 'purge', 'len', 'cap', 'is_empty', 'move_to_frequent',
                                       '{recent,frequent,ghost}_len', '{recent,frequent,ghost}_{iter,iter_lru,iter_mut,iter_lru_mut,keys,keys_lru,values,values_lru,values_mut,values_lru_mut}', 'drop']],
                  assumptions=SHIM_ASSUMPTIONS),
-    'K-ARC': dict(engine='kani', files=['harness_adaptive.rs'], support_files=['gen.rs'],
+    'K-ARC': dict(engine='kani', jobs=5, files=['harness_adaptive.rs'], support_files=['gen.rs'],
                   module={'harness_adaptive.rs': 'lru::adaptive::verif_hooks::harness'},
                   n=dict(quick=2, thorough=3), bound='size in 1..={N}, p in 0..=size, each of the four lists <= {N} entries',
                   timeout=dict(quick=1800, thorough=7200),
@@ -95,6 +95,24 @@ UNITS = {
                               for f in ['increment', 'increment_hashed_key', 'update', 'update_hashed_key', 'remove', 'remove_hashed_key', 'clear',
                                         'update_max_cost', 'get_max_cost', 'room_left', 'fill_sample', 'hash_key']],
                    assumptions=SHIM_ASSUMPTIONS[:1] + ['costs and max_cost bounded by 2^40 in magnitude (i64 overflow of the running sum is excluded by precondition, not verified)']),
+    'K-WTLFU': dict(engine='kani', jobs=6, files=['harness_wtinylfu.rs'], support_files=['gen.rs'],
+                    module={'harness_wtinylfu.rs': 'lfu::wtinylfu::verif_hooks::harness'},
+                    configs=['std', 'nostd'],
+                    n=dict(quick=2, thorough=3), bound='window, probationary, protected: length <= {N}, capacity in 1..={N}; sketch rows of 2, 4 or 8 counters, one-word doorkeeper with 1..2 probes, sample size <= 4',
+                    timeout=dict(quick=1800, thorough=7200),
+                    functions=[dict(function='WTinyLFUCache::' + f, file='src/lfu/wtinylfu.rs', line=0, props=['C01', 'C02', 'C03', 'C05', 'C10', 'C12', 'C13', 'C16', 'C17'])
+                               for f in ['put', 'get', 'get_mut', 'peek', 'peek_mut', 'contains', 'remove', 'purge', 'len', 'cap', 'is_empty',
+                                         'window_cache_len', 'window_cache_cap', 'main_cache_len', 'main_cache_cap', 'clone', 'drop', 'WTinyLFUCacheBuilder::finalize']],
+                    assumptions=SHIM_ASSUMPTIONS + ['the estimator is instantiated small (see bound); its own contracts are unit V-TLFU (unbounded)']),
+    'K-TLFU-CTOR': dict(engine='kani', files=['harness_tinylfu.rs'],
+                        module={'harness_tinylfu.rs': 'lfu::tinylfu::verif_hooks::harness'},
+                        configs=['std', 'nostd'],
+                        n=dict(quick=2, thorough=3), bound='sketch sizes 1..=8 in the constructor harness; Bloom::new for entries <= 2^32 and all ratios in (0,1) is complete',
+                        timeout=dict(quick=1800, thorough=3600),
+                        functions=[dict(function=f, file='src/lfu/tinylfu.rs', line=0, props=['C05', 'C11'])
+                                   for f in ['TinyLFUBuilder::finalize', 'Bloom::new', 'get_size', 'calc_size_by_wrong_positives', 'CountMinSketch::new (no_std build)', 'next_power_of_2']],
+                        assumptions=['CBMC models of f64 ln/ceil/floor are exact enough (unchecked)',
+                                     'std CountMinSketch::new (SystemTime + StdRng seeding) is not executed; only its sizing arithmetic, shared with the no_std constructor, is']),
     'K-ITER': dict(engine='kani', files=['harness_raw_iter.rs'], support_files=['harness_raw.rs', 'gen.rs'],
                    module={'harness_raw_iter.rs': 'lru::raw::verif_hooks::harness_iter'},
                    n=dict(quick=2, thorough=3), bound='list length <= {N}+1, schedule of next/next_back of length {N}+3 (= len()+2 at full length)',
